@@ -26,19 +26,20 @@ type Cert struct {
 
 // CertOpts describes a certificate to mint.
 type CertOpts struct {
-	Subject     pkix.Name // used when RawSubject is nil
-	RawSubject  []byte    // DER RDNSequence; overrides Subject (exact attribute order / multi-valued RDNs)
-	NotBefore   time.Time // default: now - 1h
-	NotAfter    time.Time // default: now + 24h
-	CA          bool
-	PathLen     int           // -1: no path length constraint
-	KeyUsage    x509.KeyUsage // default: CertSign for CA, DigitalSignature for leaf
-	EKU         []x509.ExtKeyUsage
-	Key         crypto.Signer // default: fresh P-256
-	Parent      *Cert         // nil: self-signed
-	CRLURLs     []string
-	OCSPURLs    []string
-	CriticalEKU bool // mark the EKU extension critical (timestamping certificates need it)
+	Subject      pkix.Name // used when RawSubject is nil
+	RawSubject   []byte    // DER RDNSequence; overrides Subject (exact attribute order / multi-valued RDNs)
+	NotBefore    time.Time // default: now - 1h
+	NotAfter     time.Time // default: now + 24h
+	CA           bool
+	PathLen      int           // -1: no path length constraint
+	KeyUsage     x509.KeyUsage // default: CertSign for CA, DigitalSignature for leaf
+	EKU          []x509.ExtKeyUsage
+	Key          crypto.Signer // default: fresh P-256
+	Parent       *Cert         // nil: self-signed
+	CRLURLs      []string
+	OCSPURLs     []string
+	CriticalEKU  bool   // mark the EKU extension critical (timestamping certificates need it)
+	SubjectKeyId []byte // explicit subject key identifier (Go sets none on non-CA certificates by itself)
 }
 
 var serial int64 = 1000
@@ -94,6 +95,7 @@ func MakeCert(o CertOpts) *Cert {
 		IsCA:                  o.CA,
 		CRLDistributionPoints: o.CRLURLs,
 		OCSPServer:            o.OCSPURLs,
+		SubjectKeyId:          o.SubjectKeyId,
 	}
 	if o.CriticalEKU && len(o.EKU) > 0 {
 		var oids []asn1.ObjectIdentifier
@@ -147,6 +149,7 @@ type ChainOpts struct {
 	LeafSubject    *pkix.Name
 	LeafRawSubject []byte
 	LeafKey        crypto.Signer
+	LeafSKI        []byte // explicit subject key identifier of the leaf
 	// validity windows; zero values mean "valid now"
 	RootNB, RootNA, InterNB, InterNA, LeafNB, LeafNA time.Time
 }
@@ -193,7 +196,7 @@ func MakeChain(o ChainOpts) *Chain {
 		certs = append([]*Cert{inter}, certs...)
 		issuer = inter
 	}
-	leaf := MakeCert(CertOpts{Subject: ls, RawSubject: o.LeafRawSubject, Parent: issuer, Key: o.LeafKey,
+	leaf := MakeCert(CertOpts{Subject: ls, RawSubject: o.LeafRawSubject, Parent: issuer, Key: o.LeafKey, SubjectKeyId: o.LeafSKI,
 		EKU: []x509.ExtKeyUsage{x509.ExtKeyUsageCodeSigning}, NotBefore: o.LeafNB, NotAfter: o.LeafNA})
 	certs = append([]*Cert{leaf}, certs...)
 	return &Chain{Certs: certs}
